@@ -25,6 +25,9 @@ pub enum AxisClass {
     Clustered,
     /// runs of exactly equal intervals with different widths (concatenated uniform grids)
     PiecewiseUniform,
+    /// first value 0 and last value n-1 exactly (like the default index axis), interior knots
+    /// moved off the integers
+    IndexEnds,
 }
 
 impl AxisClass {
@@ -38,9 +41,10 @@ impl AxisClass {
             AxisClass::FullMantissa => "full-mantissa",
             AxisClass::Clustered => "clustered-ulps",
             AxisClass::PiecewiseUniform => "piecewise-uniform",
+            AxisClass::IndexEnds => "index-ends",
         }
     }
-    pub const SMOOTH: [AxisClass; 7] = [
+    pub const SMOOTH: [AxisClass; 8] = [
         AxisClass::Unit,
         AxisClass::UniformDyadic,
         AxisClass::UniformInexact,
@@ -48,8 +52,9 @@ impl AxisClass {
         AxisClass::DyadicRandom,
         AxisClass::FullMantissa,
         AxisClass::PiecewiseUniform,
+        AxisClass::IndexEnds,
     ];
-    pub const ALL: [AxisClass; 8] = [
+    pub const ALL: [AxisClass; 9] = [
         AxisClass::Unit,
         AxisClass::UniformDyadic,
         AxisClass::UniformInexact,
@@ -58,6 +63,7 @@ impl AxisClass {
         AxisClass::FullMantissa,
         AxisClass::Clustered,
         AxisClass::PiecewiseUniform,
+        AxisClass::IndexEnds,
     ];
 }
 
@@ -227,6 +233,22 @@ pub fn gen_axis<T: Flt>(rng: &mut Rng, n: usize, class: AxisClass, opts: &AxisOp
             }
             out
         }
+        AxisClass::IndexEnds => {
+            // gaps between 1/4 and 7/4: mesh ratio <= 7
+            let mut out: Vec<T> = (0..n).map(|i| T::of(i as f64)).collect();
+            let mut moved = false;
+            for i in 1..n.saturating_sub(1) {
+                let j = rng.irange(-6, 6);
+                if j != 0 {
+                    moved = true;
+                }
+                out[i] = T::of(i as f64 + j as f64 / 16.0);
+            }
+            if !moved && n >= 3 {
+                out[1] = T::of(1.25);
+            }
+            out
+        }
         AxisClass::Clustered => {
             let mut out: Vec<T> = Vec::with_capacity(n);
             let mut x = T::of(*rng.pick(&[1.0, -2.5, 0.1, 1000.0, -1e-3]) * s);
@@ -385,6 +407,11 @@ pub fn queries_in_range<T: Flt>(rng: &mut Rng, x: &[T], extra: usize) -> Vec<T> 
     }
     for _ in 0..extra {
         q.push(rand_in(rng, lo, hi));
+    }
+    // both zeros, when zero is in range
+    if lo <= T::of(0.0) && T::of(0.0) <= hi {
+        q.push(T::of(0.0));
+        q.push(T::of(-0.0));
     }
     q
 }
